@@ -240,6 +240,11 @@ func (it *TxnIterator) advance() {
 			}
 		}
 		if !it.materializeEntry(entry, cf, userKey, version) {
+			if !it.opt.AllVersions && !it.opt.Reverse && isDeletedOrExpired(entry.Meta, entry.ExpiresAt) {
+				// The newest visible version is a tombstone or expired: it
+				// shadows every older version of this key.
+				it.lastKey = append(it.lastKey[:0], userKey...)
+			}
 			it.iitr.Next()
 			continue
 		}
